@@ -9,14 +9,21 @@ Three output streams per case line (see lean/StorageModel/Driver/C01.lean, harne
 (implementation = model, including the accept/reject decision) is checked.
 """
 import os
+import re
 
 from . import common
+
+NESTED = re.compile(r"\b(tags|meta|m|attrs|xattrs|inner|in|ktags)\.[A-Za-z_\-]+\.[A-Za-z_\-]+")
 
 MODULE = "StorageModel.Properties.C01"
 THEOREMS = [
     "transform_total", "eval_refines_sat", "seek_eq_scan", "query_shortcut_free", "subquery_count_exact",
     "null_rules", "engine_null_rules", "null_literal_rule", "not_forms_negate",
     "stacked_eq_flatMap", "resolve_refines_path", "world_refines_spec", "query_exact", "symbol_tables_exact",
+    "map_element_names_node", "map_element_reads_node", "child_store_rows",
+    "subquery_sort_irrelevant", "sort_is_permutation", "sort_order_irrelevant",
+    "query_exact_partial", "query_exact_full_fails",
+    "seek_sound", "seek_eq_scan_typed", "seekable_needs_string_symbol",
 ]
 
 
@@ -102,17 +109,28 @@ def _has_flag(flag):
     return m
 
 
-MATCHERS = {}  # no open finding (sub-queries over set.link.link chains: fixed in 0441eb9)
+# open finding: an external symbol behind a null link (the proviso `extNamesOK` of query_exact_partial fails on
+# the case, as reported by the spec driver, and implementation = model)
+MATCHERS = {
+    "ext-behind-null-link": _has_flag("extlink"),
+}
 
 RULE = ("non-trivial = well-typed filter accepted by ast.Parse whose answer separates the rows of its dataset (at least "
-        "one row matches and one does not); distinct = distinct typed-tree shapes (node classes + symbol names) among "
-        "those. m cases: 17-symbol in-memory symbol table (string/int/float/bool/datetime/any scalars, 8 set symbols "
-        "with seekable and plain cursors), 6 rows per dataset drawn from boundary pools with 25% null and 4% values of "
-        "another stored type; b cases: two linked bbolt stores (string/int32/int64/float/bool/time/nullable fields, "
-        "string set, fk, fk/link sets, tag map, dotted symbols up to 3 (one case in six: 4) segments, sub-queries with skip/limit, 0-6 + 0-4 entities, 25% null fields, 5% dangling references); filters "
-        "type-directed (1 in 6 atoms ignores the typing rules), nesting depth <= 3 (quick) / 5 (thorough), one third "
-        "single atoms, mixed and/or always parenthesised; plus the enumerated operator x left-type x literal-type x "
-        "left-operand-shape product of single atoms")
+        "one row matches and one does not); distinct = distinct typed-tree shapes (node classes + symbol names + typed sort "
+        "fields) among those. m cases: 18-symbol in-memory symbol table (string/int/float/bool/datetime/any scalars, 9 set "
+        "symbols; seekable cursors over a string set, an any-typed and an int set holding values of several types), 6 rows "
+        "per dataset drawn from boundary pools with 25% null and 4% values of another stored type; b cases: four bbolt "
+        "stores - two linked root stores, a plain child store of the first (own symbols registered before and after "
+        "GrantSymbols) and an extended child store of the second - with string/int32/int64/float/bool/time/nullable fields, "
+        "string / int / any-typed sets, fk fields and link sets (also into the child stores), tag maps with nested maps, "
+        "lists, missing levels and multi-bucket prefixes, external symbols (NewBoolFuncSymbol, NewStringFuncSymbol, a custom "
+        "EntitySymbol) and mapped symbols (MapSymbol with NotNilStringMapper and two custom mappers), dotted symbols up to "
+        "3 (one case in six: 4) segments, sub-queries with sort by / skip / limit, 0-6 + 0-4 entities, 25% null fields, 5% "
+        "dangling references, half of the parent entities with child data; queries through every store; filters "
+        "type-directed (1 in 6 atoms / sort fields ignores the typing rules), nesting depth <= 3 (quick) / 5 (thorough), one "
+        "third single atoms, mixed and/or always parenthesised; plus the enumerated operator x left-type x literal-type x "
+        "left-operand-shape product of single atoms, one atom per reachable symbol of every store, and a stream that "
+        "compares seekable sets with the rendering of one of their elements")
 
 
 def run(ctx, replay_cases=None):
@@ -122,7 +140,8 @@ def run(ctx, replay_cases=None):
         "strconv.FormatFloat(x,'f',-1,64) is data supplied per case by the harness (FloatOps.fmt); float comparisons are Lean's IEEE Float in the driver, any FloatOps instance in the theorems",
         "a bbolt bucket iterates its keys in bytes.Compare order and Seek positions at the first key >= the argument (SortedStrs / SeekOK hypotheses; exercised by the b cases)",
         "the ANTLR parser hands the listener the tree the generator prints (mixed and/or always parenthesised; grouping of unparenthesised connectives is C12, syntax errors C10)",
-        "not modelled: MapSymbol/symbolMapWrapper custom mappers, ExternalSymbol, child-store presence rule inside sub-queries (C15), sort clauses inside sub-queries, seek over sets whose elements are not all strings",
+        "a child store's data bucket does not overlap a map symbol's bucket path of its parent; MapSymbol wraps non-set symbols; child stores are one level deep (the model abstracts the nesting of child data into per-store rows: ChildRowsNested)",
+        "predicate-less sub-queries (`from s where limit 2`), which the grammar admits and the listener rejects, are outside the model (parser/listener: C10/C12)",
     ]
     with common.Lock():
         common.build_tools(ctx)
@@ -135,68 +154,105 @@ def run(ctx, replay_cases=None):
                          {"reason": "harness or Lean driver does not build against the current tree",
                           "log": (ctx.harness_log if not ctx.harness_ok else ctx.driver_log)[-2000:]}, no_input=True)
         return common.finish(ctx, trusted_base=trusted)
-    if replay_cases is not None:
-        lines = replay_cases
-    else:
-        lines = common.corpus_cases("c01") + [l for l in common.gen_cases(ctx, "c01").split("\n") if l]
-    text = "\n".join(lines) + "\n"
-    impl, model, spec = common.run_cases(ctx, "c01", text)
-    n = len(lines)
-    if len(impl) != n or len(model) != n or len(spec) != n:
-        ctx.obligation("output streams aligned", False, f"cases {n} impl {len(impl)} model {len(model)} spec {len(spec)}")
-        common.violation(ctx, "tie-broken", None, {"reason": "output streams not aligned (crash?)", "cases": n,
-                                                   "impl": len(impl), "model": len(model), "spec": len(spec),
-                                                   "impl_tail": impl[-3:], "model_tail": model[-3:]}, no_input=True)
-        return common.finish(ctx, trusted_base=trusted)
+    # The cases are generated into a file and run chunk by chunk: only counters, a few samples and the
+    # failing cases are kept (the case lines are long; holding a whole thorough run took > 2 GB).
+    import subprocess, tempfile
+    CHUNK = 3000
+
+    def chunks():
+        if replay_cases is not None:
+            yield list(replay_cases)
+            return
+        first = common.corpus_cases("c01")
+        with tempfile.TemporaryFile(mode="w+", dir=common.BUILD) as tmp:
+            rc = subprocess.run([common.HARNESS, "c01", "gen", "-tier", ctx.tier, "-seed", str(ctx.seed)], stdout=tmp,
+                                stderr=subprocess.PIPE).returncode
+            if rc != 0:
+                raise SystemExit("harness gen failed")
+            tmp.seek(0)
+            buf = first
+            for l in tmp:
+                l = l.rstrip("\n")
+                if l:
+                    buf.append(l)
+                if len(buf) >= CHUNK:
+                    yield buf
+                    buf = []
+            if buf:
+                yield buf
 
     spec_bad, corr_bad, keys = [], [], set()
     hist = {"cases:m": 0, "cases:b": 0, "well-typed": 0, "ill-typed (correspondence only)": 0, "rejected by ast.Parse": 0,
-            "uses seek shortcut candidate (BinStr!)": 0, "sub-query": 0, "dotted symbol": 0}
+            "uses seek shortcut candidate (BinStr!)": 0, "sub-query": 0, "dotted symbol": 0, "nested map element": 0,
+            "queried through a child store": 0}
     evaluations = 0
-    for i in range(n):
-        c, a, m, s = lines[i], impl[i], model[i], spec[i]
-        hist["cases:" + c[:1]] = hist.get("cases:" + c[:1], 0) + 1
-        st, shape, answers = parse_out(a)
-        sst, sbits, _flags = parse_spec(s)
-        if st == "ok":
-            if c[:1] == "m":
-                evaluations += len(answers[0]) if answers else 0
-            else:
-                evaluations += next((int(x[2:]) for x in (s or "").split(" ") if x.startswith("n=")), 1)
-            if "BinStr!" in shape:
-                hist["uses seek shortcut candidate (BinStr!)"] += 1
-        else:
-            hist["rejected by ast.Parse"] += 1
-        if " sub " in c:
-            hist["sub-query"] += 1
-        if c[:1] == "b" and "." in zql_of(c).replace(".0", "").replace(".5", ""):
-            hist["dotted symbol"] += 1
-        if sst == "wt":
-            hist["well-typed"] += 1
-            ok_ = prop_ok(a, s)
-            if st == "ok" and ok_:
-                b = answers[0]
+    n = 0
+    samples = []
+    for lines in chunks():
+        impl, model, spec = common.run_cases(ctx, "c01", "\n".join(lines) + "\n")
+        k = len(lines)
+        if len(impl) != k or len(model) != k or len(spec) != k:
+            ctx.obligation("output streams aligned", False, f"cases {k} impl {len(impl)} model {len(model)} spec {len(spec)}")
+            common.violation(ctx, "tie-broken", None, {"reason": "output streams not aligned (crash?)", "cases": k,
+                                                       "impl": len(impl), "model": len(model), "spec": len(spec),
+                                                       "impl_tail": impl[-3:], "model_tail": model[-3:]}, no_input=True)
+            return common.finish(ctx, trusted_base=trusted)
+        if len(samples) < 4:
+            samples.append(describe(lines[k // 2], impl[k // 2], model[k // 2], spec[k // 2]))
+        for i in range(k):
+            c, a, m, s = lines[i], impl[i], model[i], spec[i]
+            hist["cases:" + c[:1]] = hist.get("cases:" + c[:1], 0) + 1
+            st, shape, answers = parse_out(a)
+            sst, sbits, _flags = parse_spec(s)
+            if st == "ok":
                 if c[:1] == "m":
-                    if "0" in b and "1" in b:
-                        keys.add(shape)
+                    evaluations += len(answers[0]) if answers else 0
                 else:
-                    nrows = next((int(x[2:]) for x in (s or "").split(" ") if x.startswith("n=")), 0)
-                    nids = 0 if b in ("", "-") else b.count(",") + 1
-                    if 0 < nids < nrows:
-                        keys.add(shape)
-            if not ok_:
-                spec_bad.append((c, a, m, s))
-                continue
-        else:
-            hist["ill-typed (correspondence only)"] += 1
-        if a != m:
-            corr_bad.append((c, a, m, s))
+                    evaluations += next((int(x[2:]) for x in (s or "").split(" ") if x.startswith("n=")), 1)
+                if "BinStr!" in shape:
+                    hist["uses seek shortcut candidate (BinStr!)"] += 1
+            else:
+                hist["rejected by ast.Parse"] += 1
+            if " sub " in c:
+                hist["sub-query"] += 1
+            if c[:1] == "b":
+                z = zql_of(c).replace(".0", "").replace(".5", "")
+                if "." in z:
+                    hist["dotted symbol"] += 1
+                if NESTED.search(z):
+                    hist["nested map element"] += 1
+                if "R:child" in (s or ""):
+                    hist["queried through a child store"] += 1
+            if sst == "wt":
+                hist["well-typed"] += 1
+                ok_ = prop_ok(a, s)
+                if st == "ok" and ok_:
+                    b = answers[0]
+                    if c[:1] == "m":
+                        if "0" in b and "1" in b:
+                            keys.add(shape)
+                    else:
+                        nrows = next((int(x[2:]) for x in (s or "").split(" ") if x.startswith("n=")), 0)
+                        nids = 0 if b in ("", "-") else b.count(",") + 1
+                        if 0 < nids < nrows:
+                            keys.add(shape)
+                if not ok_:
+                    spec_bad.append((c, a, m, s))
+                    continue
+            else:
+                hist["ill-typed (correspondence only)"] += 1
+            if a != m:
+                corr_bad.append((c, a, m, s))
+        n += k
+        if len(spec_bad) + len(corr_bad) > 2000:
+            ctx.notes.append(f"stopped after {n} cases: more than 2000 failing cases collected")
+            break
     ctx.coverage.update({
         "evaluations": evaluations,
         "cases": n,
         "distinct_nontrivial": len(keys),
         "rule": RULE,
-        "samples": [describe(lines[i], impl[i], model[i], spec[i]) for i in sorted(set([0, n // 3, n // 2, n - 1])) if 0 <= i < n],
+        "samples": samples,
         "input_histogram": hist,
         "impl_vs_spec_disagreements": len(spec_bad),
         "impl_vs_model_disagreements": len(corr_bad) + len([b for b in spec_bad if b[1] != b[2]]),
